@@ -93,8 +93,10 @@ def check(run, model, tier):
         if isinstance(inner, ast.Call) and isinstance(inner.func, ast.Attribute) and dotted(inner.func.value) == get.params[0] \
                 and inner.func.attr in cls.methods:
             # which branch holds the release?
-            rel_true = all(guarded_by_edge(g, r, t, 'true') for r in releases)
-            rel_false = all(guarded_by_edge(g, r, t, 'false') for r in releases)
+            # (releases that lie after this test; one that lies before it belongs to an early way out - "no source line to classify" - and is judged below)
+            rels_t = [r for r in releases if g.exists_path(t, r)]
+            rel_true = bool(rels_t) and all(guarded_by_edge(g, r, t, 'true') for r in rels_t)
+            rel_false = bool(rels_t) and all(guarded_by_edge(g, r, t, 'false') for r in rels_t)
             if rel_true or rel_false:
                 classifier = cls.methods[inner.func.attr]
                 ctest = t
@@ -106,6 +108,11 @@ def check(run, model, tier):
                          '' if ok else 'the lock is released when the classifier reports an augmented assignment and kept otherwise', node=t.ast, obligation=True)
     if classifier is None:
         raise AnalysisError('__get__: no test on a classifier method decides the release of the lock (unknown protocol shape)')
+    for r in [r for r in releases if not g.exists_path(ctest, r)]:
+        goes_on = g.exists_path(r, ctest)
+        run.inst('PROTO.keep-lock-branch', get, 'a release before the classification leaves __get__: ' + norm(r.ast), not goes_on,
+                 '' if not goes_on else '__get__ gives the lock back before the line is classified and carries on: the classified branches release or hand over a lock that is no longer held',
+                 node=r.ast, obligation=True)
     # every path on the atomic branch releases exactly once; no release on the keep branch
     w = lambda n: 1 if n in releases else 0
     for lab in ('true', 'false'):
